@@ -7,7 +7,7 @@ for p in sorted(glob.glob(os.path.join(os.path.dirname(os.path.dirname(os.path.a
     name = os.path.basename(os.path.dirname(p))
     v = m.get("verified_by_me", {})
     ch = v.get("checks", {})
-    caught = "; ".join("{} rc={} ({})".format(k, x["rc"], ", ".join(f.split("/", 1)[1] for f in x["fingerprints"][:2]) or "-") for k, x in ch.items())
+    caught = "; ".join("{} rc={} ({})".format(k, x["rc"], ", ".join(f.split("/", 1)[1] for f in x["fingerprints"][:3] if "/" in f) or "-") for k, x in ch.items())
     rows.append("| {} | {} | {} | {} | demo {}/{} | {} |".format(name, m.get("breaks", m.get("property")), (m.get("summary") or "")[:150].replace("|", "/"),
                 (m.get("needs") or "")[:150].replace("|", "/"), v.get("demo_on_changed"), v.get("demo_on_clean"), caught))
 print("| seed | property | change | needs | demo changed/clean | my checks (quick) |\n|---|---|---|---|---|---|")
